@@ -53,6 +53,10 @@ class Construction:
         "GFA-like line (P,C,L) found in GFA2\n"+
         "Line: {}\n".format(" ".join(strings))+
         "Custom lines with record_type P, C and L are not supported by gfapy.")
+    if strings[0] == "\n":
+      # gfapy uses this code for its virtual lines of unknown record type
+      raise gfapy.FormatError(
+        "The record type of the line is not valid (newline)")
     self._init_field_value("record_type", "custom_record_type", strings[0],
                      errmsginfo = strings)
     for i in range(1, n_positional_fields):
